@@ -2,7 +2,7 @@
 # usage: adopt_seeds.sh <wtid>...   (e.g. C11b): copy the deliverables of a seeding sub-agent from /tmp/wt/out/<wtid> to
 # /verif/seeded/<Cxx>-seed2, remove its worktree, confirm it in a scratch worktree (tools/confirm_seed.sh)
 for id in "$@"; do
-  pid=${id:0:3}; case "${id:3}" in b) n=2;; c) n=3;; d) n=4;; e) n=5;; f) n=6;; *) n=9;; esac; name=$pid-seed$n
+  pid=${id:0:3}; case "${id:3}" in b) n=2;; c) n=3;; d) n=4;; e) n=5;; f) n=6;; g) n=7;; *) n=9;; esac; name=$pid-seed$n
   [ -f /tmp/wt/out/$id/patch.diff ] || { echo "no deliverables for $id"; continue; }
   mkdir -p /verif/seeded/$name
   cp /tmp/wt/out/$id/patch.diff /tmp/wt/out/$id/demo.py /tmp/wt/out/$id/notes.md /verif/seeded/$name/
